@@ -25,6 +25,7 @@ pub fn def() -> PropDef {
         }
         required.push(format!("lambda:{}|-1", g));
     }
+    required.push("chord:pair".into());
     PropDef {
         id: "C15",
         check,
@@ -151,10 +152,79 @@ fn run<G: Grp>(s: &mut Src, info: &mut Info, key: &mut Key, ctx: &Ctx) -> Result
     Ok(())
 }
 
+/// Two distinct G1 points joined by a chord of prescribed slope m (G1 is the whole curve, so the second intersection of a line
+/// with the curve is a group element): slopes +-sqrt(-1), +-1, 2, omega - directions on which quadratic forms such as
+/// dx^2 + dy^2 vanish. Equality (Jacobian `==` in several representations, and `==` of the affine types) must say "different".
+fn chord_case(s: &mut Src, info: &mut Info, key: &mut Key, ctx: &Ctx) -> Result<(), Failure> {
+    use crate::conv::*;
+    use crate::grp::{fq_roots_of_unity, g1_point_from_x};
+    use crate::zp;
+    use sm9_core::{AffineG1, G1};
+    let q = zp::q();
+    let p: Pt<GA> = g1_point_from_x(s, 0)?;
+    let (x1, y1) = { let a = p.aff.unwrap(); (rf::f_to_big(&a.0), rf::f_to_big(&a.1)) };
+    let m = match s.choose(6) {
+        0 => rf::f_to_big(&fq_roots_of_unity(4).0),
+        1 => zp::neg_mod(&rf::f_to_big(&fq_roots_of_unity(4).0), q),
+        2 => BigUint::from(1u32),
+        3 => q - 1u32,
+        4 => BigUint::from(2u32),
+        _ => rf::f_to_big(&fq_roots_of_unity(2).0),
+    };
+    // second intersection: x^2 + (x1 - m^2) x + (x1^2 + m^2 x1 - 2 m y1) = 0
+    let m2 = zp::mul_mod(&m, &m, q);
+    let bq = zp::sub_mod(&x1, &m2, q);
+    let cq = zp::sub_mod(&zp::add_mod(&zp::mul_mod(&x1, &x1, q), &zp::mul_mod(&m2, &x1, q), q), &zp::mul_mod(&BigUint::from(2u32), &zp::mul_mod(&m, &y1, q), q), q);
+    let disc = zp::sub_mod(&zp::mul_mod(&bq, &bq, q), &zp::mul_mod(&BigUint::from(4u32), &cq, q), q);
+    let rt = match zp::sqrt_mod_5mod8(&disc, q) {
+        Some(r) => r,
+        None => {
+            info.class("chord:no-second-point");
+            return Ok(());
+        }
+    };
+    let inv2 = zp::inv_mod(&BigUint::from(2u32), q).unwrap();
+    let x2 = zp::mul_mod(&zp::sub_mod(&rt, &bq, q), &inv2, q);
+    if x2 == x1 {
+        info.class("chord:tangent");
+        return Ok(());
+    }
+    let y2 = zp::add_mod(&y1, &zp::mul_mod(&m, &zp::sub_mod(&x2, &x1, q), q), q);
+    // guard: (x2, y2) is on the curve
+    if zp::mul_mod(&y2, &y2, q) != zp::add_mod(&zp::mul_mod(&zp::mul_mod(&x2, &x2, q), &x2, q), &BigUint::from(5u32), q) {
+        fail!("oracle|chord", "second intersection is not on the curve");
+    }
+    info.class("chord:pair");
+    info.nontrivial = true;
+    key.s("chord").big(&x1).big(&y1).big(&m);
+    if ctx.want_desc {
+        info.desc = crate::runner::note(json!({"kind": "two distinct G1 points on a chord of slope m", "m": zp::hexs(&m), "P": format!("({:x},{:x})", x1, y1), "Q": format!("({:x},{:x})", x2, y2)}));
+    }
+    let qa = (rf::f_from_big(&x2), rf::f_from_big(&y2));
+    let lam = GA::lambda(s).0;
+    let reps_p = [p.val, GA::rescaled(&p.aff.unwrap(), &lam)];
+    let reps_q = [GA::affine(&qa), GA::rescaled(&qa, &lam), GA::rescaled(&qa, &GA::lambda(s).0)];
+    for a in reps_p.iter() {
+        for b in reps_q.iter() {
+            ensure!(a != b && b != a, "eq|distinct-points-equal", "G1: two different points (chord of slope {:x}) compare equal: {} vs {}", m, show_g1(a), show_g1(b));
+            let (fa, fb) = (AffineG1::from_jacobian(*a), AffineG1::from_jacobian(*b));
+            ensure!(fa.is_some() && fb.is_some() && fa != fb, "eq|affine-distinct-points-equal", "AffineG1: the affine forms of two different points (chord of slope {:x}) compare equal", m);
+            ensure!(fa == AffineG1::from_jacobian(G1::from(fa.unwrap())), "eq|affine-not-reflexive", "AffineG1: value != itself after a round trip");
+        }
+    }
+    Ok(())
+}
+
 pub fn check(g: &[u8], ctx: &Ctx) -> Result<Info, Failure> {
     let mut s = Src::new(g);
     let mut info = Info::default();
     let mut key = Key::new();
+    if g.first().map(|b| b % 16 == 15).unwrap_or(false) {
+        s.u8();
+        chord_case(&mut s, &mut info, &mut key, ctx)?;
+        info.key = key.done();
+        return Ok(info);
+    }
     if s.bool() {
         run::<GA>(&mut s, &mut info, &mut key, ctx)?;
     } else {
